@@ -118,9 +118,13 @@ pub fn explore_from(ctx: &Ctx, x: &[u8], opts: &Opts, mode: &Mode, label: &str, 
     gs.oneshot_ok = v1.is_ok();
     let audit_all = std::env::var("VERIF_AUDIT_ALL").is_ok();
     // one-shot verdict for every prefix of the input (class, output, message)
+    let first_off = if init.is_empty() { 0 } else { replay(x, opts, init).1 };
     let one: Vec<(&'static str, Vec<u8>, String)> = if matches!(mode, Mode::Equivalence) {
         (0..=n)
             .map(|m| {
+                if m < first_off {
+                    return ("unused", Vec::new(), String::new());
+                }
                 let (v, o, _) = dec_plain(Fmt::Lzma, opts, &x[..m]);
                 let msg = match &v {
                     V::Err(e) | V::Panic(e) => e.clone(),
@@ -322,12 +326,18 @@ pub fn explore_from(ctx: &Ctx, x: &[u8], opts: &Opts, mode: &Mode, label: &str, 
                     }
                     continue;
                 }
-                // completed: declared size reached (finish is Ok with exactly that many bytes)
+                // completed: the decoder has produced at least the size in effect (reached exactly, or overshot by a copy)
                 if let Some(s) = size_in_effect {
-                    let (r, out, _) = finish_probe(&hist);
-                    gs.finish_probes += 1;
-                    if r.v.is_ok() && out.len() as u64 == *s && h0.phase() == 2 && (*s > 0 || offset >= opts.header_len() + 5) {
+                    let produced = h0.produced();
+                    if h0.phase() == 2 && produced.map(|p| p as u64 >= *s).unwrap_or(false) {
                         gs.completed_nodes += 1;
+                        let exact = produced == Some(*s as usize);
+                        let (r, out, _) = finish_probe(&hist);
+                        gs.finish_probes += 1;
+                        if exact && !(r.v.is_ok() && out.len() as u64 == *s) {
+                            let (h, _, _) = replay(x, opts, &hist);
+                            viol(&hist, &[SOp::Finish], format!("declared size {} reached exactly: finish() is Ok with exactly that many bytes", s), &h, &r);
+                        }
                         for j in &junk {
                             if j.is_empty() {
                                 continue;
@@ -339,12 +349,12 @@ pub fn explore_from(ctx: &Ctx, x: &[u8], opts: &Opts, mode: &Mode, label: &str, 
                             ctx.traces.fetch_add(1, Ordering::Relaxed);
                             for rr in [&r1, &r2] {
                                 if !(rr.v.is_ok() && rr.n == Some(0) && h.sink_len() == sink0.len()) {
-                                    viol(&hist, &[op.clone(), op.clone()], format!("declared size {} reached: further writes consume nothing and leave the output unchanged", s), &h, rr);
+                                    viol(&hist, &[op.clone(), op.clone()], format!("declared size {} reached ({} bytes produced): further writes consume nothing and leave the output unchanged", s, produced.unwrap_or(0)), &h, rr);
                                     break;
                                 }
                             }
                             let rf = h.apply(&SOp::Finish);
-                            if !(rf.v.is_ok() && h.sink_bytes() == out) {
+                            if exact && !(rf.v.is_ok() && h.sink_bytes() == out) {
                                 viol(&hist, &[op.clone(), op.clone(), SOp::Finish], format!("declared size {} reached: finish() still Ok with the same {} bytes", s, out.len()), &h, &rf);
                             }
                         }
